@@ -104,8 +104,13 @@ impl ToTokens for FromMetaImpl<'_> {
             Data::Enum(ref variants) => {
                 let unit_arms = variants.iter().map(Variant::as_unit_match_arm);
 
-                let unknown_variant_err = if !variants.is_empty() {
-                    let names = variants.iter().map(Variant::as_name);
+                // Only variants that can actually be produced are worth suggesting.
+                let names: Vec<_> = variants
+                    .iter()
+                    .filter(|v| !v.skip)
+                    .map(Variant::as_name)
+                    .collect();
+                let unknown_variant_err = if !names.is_empty() {
                     quote! {
                         unknown_field_with_alts(__other, &[#(#names),*])
                     }
